@@ -228,12 +228,18 @@ def run_history(w, pr, res, keys_only=False, permute=False):
             note_key(k_live, m.lineage_id(d), who)
         return table
 
+    def detuple(v):
+        # replay files are JSON: option values that were tuples come back as lists
+        return tuple(detuple(x) for x in v) if isinstance(v, list) else v
+
     ctx = new_ctx(model)
     second = None
     second_model = None
     res["tables"] = []
     res["n_checked_rows"] = 0
     for i, op in enumerate(w["ops"]):
+        if op[0] == "set_config":
+            op = [op[0], op[1], detuple(op[2])]
         res["op"] = f"#{i} {op}"
         kind = op[0]
         if kind == "set_config":
